@@ -234,7 +234,13 @@ def runPhase (P : Params) (c : Client) (t : Nat) (k : Nat) (op : Op) (ph : Nat) 
       match publish P.C c.nodes (th.cur + 1) th.collected with
       | some (chain, v, freed) =>
         let c := { c with nodes := chain, live := c.live - freed.length }
-        (setThread c t { th with lastList := v, pend := .fwdStoreG }, freed.map (fun _ => "PF"), .block 7)
+        -- a freed node that still holds a vector handed out to a guard holder is reported (`LFREE<var>`)
+        let toks := freed.flatMap fun nid =>
+          "PF" :: ((List.range c.lists.size).filter fun v =>
+            match c.lists.getD v none with
+            | some r => r.1 == nid
+            | none => false).map (fun v => s!"LFREE{v}")
+        (setThread c t { th with lastList := v, pend := .fwdStoreG }, toks, .block 7)
       | none => (c, ["HANG"], .doneOp)
     | 7 => (setThread c t { th with pend := .fwdStoreM }, [], .block 8)
     | _ =>
